@@ -104,8 +104,10 @@ def gen_scenario(rng):
         "interval": rng.choice([2.0, 5.0, 8.0]), "retries": rng.choice([0, 0, 1, 3, None]),
         "check_output": rng.random() < 0.7, "kill_delay": rng.choice([None, None, None, 3.0, 12.0]),
         "producer_repeat": rng.random() < 0.6, "n_producers": rng.choice([1, 1, 2]),
-        "obs_script": [{"reason": rng.choice(reasons), "duration": rng.choice([0.5, 1.0, 2.0, 4.0])} for _ in range(n_exec)],
-        "obs_tail": {"reason": rng.choice(["Success", "Success", "Success", "KnownIssue"]), "duration": rng.choice([0.5, 1.0, 3.0])},
+        "obs_script": [({"reason": rng.choice(reasons), "duration": rng.choice([0.5, 1.0, 2.0, 4.0])} if rng.random() < 0.9
+                        else {"launch_error": rng.choice(["OSError", "JobLaunchError"])}) for _ in range(n_exec)],
+        "obs_tail": rng.choice([{"reason": "Success", "duration": 1.0}] * 6 + [{"reason": "KnownIssue", "duration": 1.0},
+                                {"launch_error": "JobLaunchError"}]) | {"duration": rng.choice([0.5, 1.0, 3.0])},
     }
     fo = rng.choice(["at", "at", "point", "initial"])
     if fo == "initial":
